@@ -224,6 +224,61 @@ def check_program(case, ctx):
     prog = assemble(case["instrs"], case["final"])
     if not prog:
         raise Discard("empty program")
+    compare_program(prog, case, ctx)
+
+
+def properly_nested(prog):
+    """IF/NOTIF/ELSE/ENDIF balanced with at most one ELSE per IF (the property's domain)"""
+    stack = []
+    for t in prog:
+        if t in (99, 100):
+            stack.append(False)
+        elif t == 103:
+            if not stack or stack[-1]:
+                return False
+            stack[-1] = True
+        elif t == 104:
+            if not stack:
+                return False
+            stack.pop()
+    return not stack
+
+
+def fuzz_seeds(tier):
+    def ser(ctx9, prog):
+        return ctx9 + Script(prog).raw_serialize()
+    c = bytes([2]) + (500).to_bytes(4, "little") + (10).to_bytes(4, "little")
+    return [ser(c, [0x51, 0x52, 0x93, 0x53, 0x87]),
+            ser(c, [0x51, 0x63, 0x52, 0x67, 0x53, 0x68, 0x52, 0x87]),
+            ser(c, [b"\x01", b"\x02", b"\x03", b"\x04", b"\x05", b"\x06", 0x71, 0x75, 0x75, 0x75, 0x75, 0x75, 0x53, 0x87]),
+            ser(c, [b"\xf4\x01", 0xB1, 0x75, b"\x0a", 0xB2, 0x75, 0x51, 0x6B, 0x6C, 0x76, 0xA8, 0x82, 0x77]),
+            ser(c, [0x52, 0x53, 0x54, 0x7B, 0x7C, 0x7D, 0x79, 0x7A, 0x74, 0xA5, 0x9A])]
+
+
+def check_fuzz_program(case, ctx):
+    """bytes -> (transaction context, script): every script that Script.parse turns into a program over
+    the supported opcode set (properly nested, <= 40 operations) is judged like the generated programs"""
+    data = case["data"]
+    if len(data) < 10:
+        raise Discard("too short")
+    c = {"version": [0, 1, 2, 0xFFFFFFFF][data[0] % 4], "locktime": int.from_bytes(data[1:5], "little"),
+         "sequence": int.from_bytes(data[5:9], "little")}
+    st_, sc = attempt(Script.parse, None, data[9:])
+    if st_ == "exc" or sc.raw is not None:
+        ctx.label("unparseable")
+        return
+    prog = list(sc.commands)
+    if len(prog) > 40 or any(isinstance(t, int) and t not in interp.SUPPORTED for t in prog):
+        ctx.label("outside_opcode_set")
+        return
+    if any(isinstance(t, bytes) and len(t) > 520 for t in prog) or not properly_nested(prog):
+        ctx.label("outside_domain")
+        return
+    ctx.label("judged")
+    compare_program(prog, {"ctx": c}, ctx)
+
+
+def compare_program(prog, case, ctx):
     trace = []
     try:
         want = interp.evaluate(prog, case["ctx"], observer=shape_observer, trace=trace)
@@ -389,6 +444,11 @@ SUBS = [
         + ["executed:" + n for n in ("2ROT", "2OVER", "2SWAP", "TUCK", "ROT", "PICK", "ROLL", "TOALT",
                                      "FROMALT", "CLTV", "CSV", "WITHIN")],
         nontrivial_rule="program whose reference run executes >= 5 operations"),
+    Sub("fuzz_programs", check_fuzz_program, kind="fuzz", seeds=fuzz_seeds, max_len=200,
+        budget={"quick": 20000, "thorough": 3000000}, required=["judged"],
+        nontrivial_rule="script bytes that parse into a program over the supported opcode set that executes >= 5 operations",
+        doc="quick: Hypothesis byte-level mutations of seed scripts; thorough: atheris coverage-guided "
+            "differential of Script.evaluate against the reference interpreter"),
     Sub("number_codec", check_codec, kind="exhaustive", enumerate=codec_enum,
         nontrivial_rule="one case = all byte strings with a fixed length and first byte, or 5000 consecutive integers"),
     Sub("number_codec_ints", check_codec_int, strategy=lambda tier: codec_int_cases(),
